@@ -177,7 +177,7 @@ Proof.
     destruct (hi <? 0) eqn:E4; [apply Z.ltb_lt in E4; lia|]. cbn. split; [reflexivity|lia].
 Qed.
 
-(* the same with the code's lower-bound call, under the strict invariant *)
+(* the same with the lower-bound call as it was before the repair (t1 itself), under the strict invariant *)
 Lemma window_complete_strict v ci t1 t2 k d :
   fix_lb v = false -> find_chunk ci (k_id k) = Some k -> chunk_inv_strict k d -> len d <= max_uint32 ->
   forall i, 0 <= i < len d -> t1 <= dnth d i <= t2 ->
@@ -299,7 +299,7 @@ Proof.
   apply (window_complete v ci' (eff_t1 v o1) (eff_t2 o2) k d Hv); try assumption. rewrite Hid. exact Hf.
 Qed.
 
-(* the code's lower bound: complete under the strict invariant and an explicit lower bound *)
+(* the lower bound as it was before the repair (t1 itself): complete under the strict invariant and an explicit lower bound *)
 Theorem complete_of_inv_strict v st t1 o2 :
   fix_lb v = false -> data_int64 st ->
   int64_ok t1 -> (forall t, o2 = Some t -> int64_ok t) ->
